@@ -124,6 +124,11 @@ pub(crate) fn without_terminator(
     if bytes.get(start..) == Some(line_term) {
         return &bytes[..bytes.len() - line_term.len()];
     }
+    // When the line terminator is CRLF, lines are still split at every `\n`,
+    // so a line can also be terminated by a `\n` that has no `\r` before it.
+    if line_term.len() == 2 && bytes.last() == Some(&b'\n') {
+        return &bytes[..bytes.len() - 1];
+    }
     bytes
 }
 
